@@ -13,13 +13,17 @@ for d in sorted(glob.glob('/verif/seeded/*-m*')):
     if agent.get('property', prop) != prop and re.match(r'^C\d\d$', str(agent.get('property'))):
         prop = agent['property']
     confirm = open(d + '/confirm.txt').read().strip().splitlines()[-1] if os.path.exists(d + '/confirm.txt') else ''
-    assert subprocess.run(['git', '-C', '/repo', 'diff', '--quiet']).returncode == 0, 'repo dirty'
-    subprocess.run(['git', '-C', '/repo', 'apply', d + '/patch.diff'], check=True)
-    env = dict(os.environ, VERIF_MIN_BUDGET_S='10')
+    W = '/tmp/verif-mutest-repo'
+    head = subprocess.run(['git', '-C', '/repo', 'rev-parse', 'HEAD'], capture_output=True, text=True).stdout.strip()
+    if not os.path.isdir(W): subprocess.run(['git', '-C', '/repo', 'worktree', 'add', '-q', '--detach', W, head], check=True)
+    subprocess.run(['git', '-C', W, 'checkout', '-q', '--', '.'], check=True)
+    subprocess.run(['git', '-C', W, 'checkout', '-q', '--detach', head], check=True)
+    subprocess.run(['git', '-C', W, 'apply', d + '/patch.diff'], check=True)
+    env = dict(os.environ, VERIF_MIN_BUDGET_S='10', VERIF_REPO=W)
     ev = f'/verif/evidence/{prop}.json'
     saved = open(ev).read() if os.path.exists(ev) else None
     p = subprocess.run(['./check', prop, 'quick'], cwd='/verif', capture_output=True, text=True, env=env)
-    subprocess.run(['git', '-C', '/repo', 'checkout', '--', '.'], check=True)
+    subprocess.run(['git', '-C', W, 'checkout', '-q', '--', '.'], check=True)
     if saved is not None: open(ev, 'w').write(saved)  # evidence files describe the unchanged tree
     sigs = re.findall(r'signature: (\S+) \((\d+) run', p.stdout)
     summary = [l for l in p.stdout.splitlines() if l.startswith('check ')]
@@ -32,7 +36,7 @@ for d in sorted(glob.glob('/verif/seeded/*-m*')):
         'confirmed_in_scratch_worktree': confirm,
         'detected': p.returncode == 1,
         'detected_by': {'command': f'./check {prop} quick', 'exit': p.returncode, 'signatures': {s: int(n) for s, n in sigs}, 'summary': summary[-1] if summary else ''},
-        'ran': [f'/verif/confirm_mutant.sh {d} {name}  (apply in a scratch worktree; cargo test --workspace x2; demo with/without)', f'git -C /repo apply {d}/patch.diff && ./check {prop} quick; git -C /repo checkout -- .'],
+        'ran': [f'/verif/confirm_mutant.sh {d} {name}  (apply in a scratch worktree; cargo test --workspace x2; demo with/without)', f'/verif/mutest.sh {d}/patch.diff {prop}   (applies the patch to a scratch worktree of /repo, runs ./check {prop} quick against it, undoes it)'],
     }
     json.dump(meta, open(d + '/meta.json', 'w'), indent=1)
     print(name, prop, 'detected' if meta['detected'] else 'MISSED', dict(list(meta['detected_by']['signatures'].items())[:3]), flush=True)
